@@ -2,6 +2,7 @@ package main
 
 import (
 	"encoding/json"
+	"os/exec"
 	"flag"
 	"fmt"
 	"os"
@@ -22,6 +23,7 @@ type PropSpec struct {
 	Assume    []string // assumptions specific to the property (reduction rules etc.)
 	Bounded   []string // bounded stand-ins (names of Go tests under /verif/bounded)
 	Scenario  []string // known-finding replays (scripts)
+	Census    string   // structural census obligations to include: "log-path", "writers" or "all"
 }
 
 type Finding struct {
@@ -263,6 +265,39 @@ func runProperty(spec *PropSpec, repo, tier string, writeEvidence bool) int {
 			violations = append(violations, reportViolation(root, spec.ID, o.Name, o.Text, o.Result, r))
 		}
 	}
+	// structural census (decided on the call graph, no solver)
+	if spec.Census != "" {
+		for _, cr := range eng.census() {
+			if spec.Census == "log-path" && !strings.HasPrefix(cr.Name, "census/log-path") {
+				continue
+			}
+			if spec.Census == "writers" && !strings.HasPrefix(cr.Name, "census/writer") {
+				continue
+			}
+			nObl++
+			ev := oblEvidence{Name: cr.Name, Kind: "census", Text: cr.Detail, Solver: "structural"}
+			if cr.OK {
+				nDis++
+				ev.Status = "holds"
+			} else {
+				ev.Status = "fails"
+				violations = append(violations, reportViolation(root, spec.ID, cr.Name, cr.Detail, nil, nil))
+			}
+			evid = append(evid, ev)
+		}
+	}
+	// bounded stand-ins: run, reported separately, never counted as discharged
+	var boundedRuns []map[string]interface{}
+	for _, b := range spec.Bounded {
+		br := runBounded(repo, scratch, b, tier)
+		boundedRuns = append(boundedRuns, br)
+		if br["status"] != "pass" {
+			file := filepath.Join(root, "replays", spec.ID+"-bounded-"+sanitize(b)+".json")
+			data, _ := json.MarshalIndent(br, "", " ")
+			_ = os.WriteFile(file, data, 0644)
+			violations = append(violations, fmt.Sprintf("VIOLATION property=%s replay=%s obligation=bounded:%s (failing inputs are listed in the replay file)", spec.ID, file, b))
+		}
+	}
 	for _, m := range missing {
 		violations = append(violations, reportViolation(root, spec.ID, m+"/missing", "function under contract not found in the package (renamed or removed): its obligations cannot be generated", nil, nil))
 	}
@@ -318,7 +353,7 @@ func runProperty(spec *PropSpec, repo, tier string, writeEvidence bool) int {
 			"samples":                   samples,
 			"technique":                 spec.Technique,
 			"explanation":               "every obligation is a verification condition generated from the go/ssa form of the function in /repo's working tree; discharged means the negated VC is unsat",
-			"bounded":                   spec.Bounded,
+			"bounded":                   boundedRuns,
 			"per_function_obligations":  perFuncCount,
 		},
 	}
@@ -495,4 +530,59 @@ func sortedSpecIDs() []string {
 	}
 	sort.Strings(ids)
 	return ids
+}
+
+// runBounded runs one bounded stand-in (an in-package Go test under /verif/bounded, injected with -overlay).
+func runBounded(repo, scratch, name, tier string) map[string]interface{} {
+	root := verifRoot()
+	res := map[string]interface{}{"name": name, "label": "bounded (exhaustive within the stated bound; never counted as proved)"}
+	files, _ := filepath.Glob(filepath.Join(root, "bounded", "*_test.go"))
+	repl := map[string]string{}
+	for i, f := range files {
+		repl[filepath.Join(repo, "internal/ergo", fmt.Sprintf("zz_verif_bounded%d_test.go", i))] = f
+	}
+	ov, _ := json.Marshal(map[string]interface{}{"Replace": repl})
+	ovFile := filepath.Join(scratch, "bounded_overlay.json")
+	_ = os.WriteFile(ovFile, ov, 0644)
+	cmdline := fmt.Sprintf("cd %s && VERIF_TIER=%s go test -v -overlay %s -vet=off -count=1 -timeout 600s -run '^TestVerifBounded_%s$' ./internal/ergo", repo, tier, ovFile, name)
+	cmd := exec.Command("bash", "-c", cmdline)
+	cmd.Env = append(os.Environ(), "GOFLAGS=-mod=mod", "GOPROXY=off")
+	out, _ := cmd.CombinedOutput()
+	text := string(out)
+	res["command"] = cmdline
+	res["status"] = "error"
+	for _, line := range strings.Split(text, "\n") {
+		if strings.HasPrefix(line, "VERIF-BOUNDED ") {
+			res["summary"] = line
+			var n, cases, failures string
+			for _, f := range strings.Fields(line) {
+				if strings.HasPrefix(f, "name=") {
+					n = f[5:]
+				}
+				if strings.HasPrefix(f, "cases=") {
+					cases = f[6:]
+				}
+				if strings.HasPrefix(f, "failures=") {
+					failures = f[9:]
+				}
+				if strings.HasPrefix(f, "bound=") {
+					res["bound"] = f[6:]
+				}
+			}
+			_ = n
+			res["cases"] = cases
+			if failures == "0" {
+				res["status"] = "pass"
+			} else {
+				res["status"] = "fail"
+			}
+		}
+	}
+	if res["status"] != "pass" {
+		if len(text) > 6000 {
+			text = text[:6000]
+		}
+		res["output"] = text
+	}
+	return res
 }
